@@ -1,6 +1,7 @@
 """C02 — keys, uniqueness, checks and foreign keys land on the right columns (E1, reference model)."""
 import itertools
 import json
+import re
 
 from ..util import diff, run_ddl, short, is_table, snippet as _snip
 
@@ -31,8 +32,15 @@ ACTS2 = [(("DELETE", "SET NULL"),), (("UPDATE", "NO ACTION"),), (("DELETE", "SET
 
 # CHECK expressions: comparisons, IN lists, function calls, AND / BETWEEN ... and four forms the expression grammar does not reach
 CK_EXPRS = ["d > 0", "d IN (1, 2, 3)", "length(b) > 0", "d > 0 AND d < 10", "d BETWEEN 1 AND 5", "b IN ('x', 'y')", "d <> 5", "rs.f(d) > 0", "d % 2 = 0",
-            "d > 0 AND b IN ('x', 'y')", "d > 0 AND d < 10 AND d IN (1, 2)"]
+            "d > 0 AND b IN ('x', 'y')", "d > 0 AND d < 10 AND d IN (1, 2)",
+            # an '=' comparison (its own grammar production), alone and followed by AND
+            "d = 5", "b = 'x'", "b = 'x' AND d > 5"]
 CK_BEYOND = ["(d > 0)", "d >= 0 OR b IS NULL", "lower(b) = b", "b LIKE 'a%'", "b IN ('x', 'y') AND d > 0", "d > 0 AND lower(b) = 'x'"]
+
+
+def ck_tokens(text):
+    """a CHECK expression as a token list: blanks between tokens do not matter, blanks INSIDE a word or an operator do"""
+    return re.findall(r"'[^']*'|\w+|[^\w\s']+", str(text))
 
 
 def stmt_text(st):
@@ -85,6 +93,10 @@ def items():
         out.append(["ick", c, "abs(%s) > 1" % c])
         out.append(["ick", c, "%s > 1 AND %s < 9" % (c, c)])
         out.append(["ick", c, "%s > 1 AND %s IN (2, 3)" % (c, c)])
+        out.append(["ick", c, "%s = 1" % c])
+        # ... followed by further column attributes
+        out.append(["ick", c, c + " >= 18", None, "NOT NULL"])
+        out.append(["ick", c, c + " > 1", None, "NOT NULL DEFAULT 5"])
     for c in ("b", "d"):
         for rc in ("x", None):
             for sch in (None, "rs"):
@@ -136,6 +148,11 @@ def iname(it):
     return it[n] if len(it) > n else None
 
 
+def nn_cols(its):
+    """columns declared NOT NULL by the attribute text that follows an inline CHECK"""
+    return {it[1] for it in its if it[0] == "ick" and len(it) > 4 and "NOT NULL" in it[4]}
+
+
 def render_inline(it):
     pre = "CONSTRAINT %s " % iname(it) if iname(it) else ""
     return pre + _render_inline(it)
@@ -148,7 +165,7 @@ def _render_inline(it):
     if k == "iuq":
         return "UNIQUE"
     if k == "ick":
-        return "CHECK (%s)" % it[2]
+        return "CHECK (%s)" % it[2] + (" " + it[4] if len(it) > 4 else "")
     _, c, rc, sch, act = it[:5]
     s = "REFERENCES %so" % ((sch + ".") if sch else "") + ("(%s)" % rc if rc else "")
     for w, a in act:
@@ -263,6 +280,9 @@ def features(case):
         f.append("uq1-named")
     if any(i[0] == "ck" and i[1] in CK_BEYOND for i in its):
         f.append("check-expr:beyond-comparison-grammar")
+    for i in its:
+        if i[0] == "ick" and re.search(r"\w = \w", i[2]) and (len(i) > 4 or any(j is not i and is_inline(j) and j[1] == i[1] for j in its)):
+            f.append("check-eq:inline-followed-by-attribute")
     return f
 
 
@@ -281,8 +301,9 @@ def check(case, r):
     if t.get("primary_key") != exp_pk:
         D.append(diff("primary_key", "pk-differs", exp_pk, t.get("primary_key")))
     for c in COLS:
-        if c in cols and cols[c].get("nullable") != (c not in exp_pk):
-            D.append(diff("column %s nullable" % c, "nullable-differs", c not in exp_pk, cols[c].get("nullable")))
+        want_null = c not in exp_pk and c not in nn_cols(its)
+        if c in cols and cols[c].get("nullable") != want_null:
+            D.append(diff("column %s nullable" % c, "nullable-differs", want_null, cols[c].get("nullable")))
     cons = t.get("constraints") or {}
     for it in its:
         if it[0] == "pk" and it[2]:
@@ -319,13 +340,13 @@ def check(case, r):
             D.append(diff("checks", "checks-differ", [i[1:] for i in exp_ck], got))
         else:
             for it, ck in zip(exp_ck, got):
-                if not isinstance(ck, dict) or ck.get("constraint_name") != it[2] or stmt_text(ck.get("statement", "")).replace(" ", "") != it[1].replace(" ", ""):
+                if not isinstance(ck, dict) or ck.get("constraint_name") != it[2] or ck_tokens(stmt_text(ck.get("statement", ""))) != ck_tokens(it[1]):
                     D.append(diff("checks", "checks-differ", it[1:], ck))
     for it in its:
         if it[0] == "ick":
             ck = cols.get(it[1], {}).get("check")
             txt = ck.get("statement") if (isinstance(ck, dict) and "statement" in ck) else ck
-            if stmt_text(txt).replace(" ", "") != it[2].replace(" ", ""):
+            if ck_tokens(stmt_text(txt)) != ck_tokens(it[2]):
                 D.append(diff("column %s check" % it[1], "inline-check-differs", it[2], ck))
             elif iname(it) and isinstance(ck, dict) and ck.get("constraint_name") != iname(it):
                 D.append(diff("column %s check" % it[1], "inline-check-name-differs", iname(it), ck))
